@@ -1,5 +1,6 @@
 import NflowsModel.Audit.Tool
 import NflowsModel.Properties.C11
 import NflowsModel.Properties.C11F
+import NflowsModel.Properties.C11G
 
 #audit_namespace Properties.C11
